@@ -22,6 +22,9 @@ TrHObs == /\ IsEvent("hobs") /\ Consume /\ halive
           /\ \A i \in 1..Len(Ev.lbv) :
                 /\ ToSet(Ev.lbv[i][2]) = HByValue(Ev.lbv[i][1]) /\ Len(Ev.lbv[i][2]) = Cardinality(HByValue(Ev.lbv[i][1]))
                 /\ ToSet(Ev.lbv[i][3]) = HByValue(Ev.lbv[i][1]) /\ Len(Ev.lbv[i][3]) = Cardinality(HByValue(Ev.lbv[i][1]))
+                (* the comparator alone decides: one that accepts nothing yields nothing (even for an identical pointer), one that accepts all yields every key *)
+                /\ (Len(Ev.lbv[i]) >= 5 => /\ Ev.lbv[i][4] = <<>>
+                                           /\ ToSet(Ev.lbv[i][5]) = DOMAIN hm /\ Len(Ev.lbv[i][5]) = Cardinality(DOMAIN hm))
           /\ UNCHANGED <<hm, halive, ls>>
 TrLApp == IsEvent("lapp") /\ Consume /\ LAppend(Ev.x) /\ UNCHANGED <<hm, halive>>
 TrLPre == IsEvent("lpre") /\ Consume /\ LPrepend(Ev.x) /\ UNCHANGED <<hm, halive>>
